@@ -516,3 +516,16 @@ bool cmi_event_remove_waiter(const uint64_t key, const struct cmb_process *pp)
 
     return false;
 }
+
+/*
+ * A process stopped waiting for an event for some other reason: take it off the
+ * event's waiter list if the event is still scheduled, and cancel the wakeup
+ * call if the event has happened already and the call is on its way.
+ */
+void cmi_event_forget_waiter(const uint64_t key, const struct cmb_process *pp)
+{
+    cmb_assert_release(event_queue != NULL);
+
+    (void)cmi_event_remove_waiter(key, pp);
+    (void)cmb_event_pattern_cancel(wakeup_event_event, pp, CMB_ANY_OBJECT);
+}
